@@ -24,4 +24,19 @@ theorem C18_stackSafe_exact_small :
       smallChains.all fun c => (runTop .deepest b c == refTop b c) == stackSafe b 0 c) = true := by
   decide
 
+def rejectSmallOK (b : Bottom) (c : List Level) : Bool :=
+  let m := runTopC .rejects .own b c
+  let r := rejectClause .own b c m
+  if m == refTop b c then r == "ok" else r == "exception-rejecting-attributes-traceback-incomplete"
+
+set_option maxRecDepth 1000000 in
+set_option maxHeartbeats 1000000 in
+/-- on EVERY chain of depth 1 and 2 of the small alphabet and every bottom kind the model of the repaired code for
+    rejecting exception classes deviates from the reference in nothing but the recorded incomplete traceback: the
+    observer answers "ok" or the recorded name, and "ok" exactly when the observation IS the reference one (finite
+    kernel check; for longer chains SPECM of the run) -/
+theorem C18_reject_repaired_small :
+    ([Bottom.none, .errFuture, .hook false 1].all fun b => smallChains.all fun c => rejectSmallOK b c) = true := by
+  decide
+
 end AsynqModel.Debug
